@@ -226,7 +226,9 @@ Section NP.
     intros (IHt & IHl & IHf & IHs & IHc) st d tag fs items st' He.
     rewrite enc_custom_eq in He. rewrite norm_custom_eq. cbv zeta in He |- *.
     destruct (String.eqb (t_name d) "kmip.RequestBatchItem") eqn:E1.
-    { destruct fs as [|[op| | | | | | | | |] [|idv [|payload [|ext [|? ?]]]]]; try discriminate.
+    { destruct fs as [|x0 fs]; [discriminate|]. destruct x0 as [op| | | | | | | | |]; try discriminate.
+      destruct fs as [|idv fs]; [discriminate|]. destruct fs as [|payload fs]; [discriminate|]. destruct fs as [|ext fs]; [discriminate|].
+      destruct fs as [|? ?]; [|discriminate].
       destruct (bytes_of idv) as [id|] eqn:Eid; [|discriminate].
       destruct (enc_ty f st (fty d 2) (ftag d 2) payload) as [[ip sp]| | |] eqn:Ep; cbn [bind fst snd] in He; try discriminate.
       destruct (enc_ty f sp (fty d 3) (ftag d 3) ext) as [[ie se]| | |] eqn:Ee; cbn [bind fst snd] in He; try discriminate.
@@ -235,7 +237,12 @@ Section NP.
       destruct (IHt _ _ _ _ _ _ Ee) as [H3 H4]. cbn [fst snd]. split; [exact H3|].
       rewrite enc_custom_eq. cbv zeta. rewrite E1. cbn [bytes_of]. rewrite H2. cbn [bind fst snd]. rewrite H4. reflexivity. }
     destruct (String.eqb (t_name d) "kmip.ResponseBatchItem") eqn:E2.
-    { destruct fs as [|[op| | | | | | | | |] [|idv [|[status| | | | | | | | |] [|[reason| | | | | | | | |] [|[| |msg| | | | | | |] [|acvv [|payload [|ext [|? ?]]]]]]]]]; try discriminate.
+    { destruct fs as [|x0 fs]; [discriminate|]. destruct x0 as [op| | | | | | | | |]; try discriminate.
+      destruct fs as [|idv fs]; [discriminate|]. destruct fs as [|x2 fs]; [discriminate|]. destruct x2 as [status| | | | | | | | |]; try discriminate.
+      destruct fs as [|x3 fs]; [discriminate|]. destruct x3 as [reason| | | | | | | | |]; try discriminate.
+      destruct fs as [|x4 fs]; [discriminate|]. destruct x4 as [| |msg| | | | | | |]; try discriminate.
+      destruct fs as [|acvv fs]; [discriminate|]. destruct fs as [|payload fs]; [discriminate|]. destruct fs as [|ext fs]; [discriminate|].
+      destruct fs as [|? ?]; [|discriminate].
       destruct (bytes_of idv) as [id|] eqn:Eid; [|discriminate].
       destruct (bytes_of acvv) as [acv|] eqn:Eacv; [|discriminate].
       destruct (enc_ty f st (fty d 6) (ftag d 6) payload) as [[ip sp]| | |] eqn:Ep; cbn [bind fst snd] in He; try discriminate.
